@@ -238,3 +238,46 @@ func ruleL13(p *Prog, r *Report) {
 	}
 	r.Floor(R, "merge / rebalance decisions", 4, n)
 }
+
+// L14: the direct-build fast path (newArrayWithElements) is taken only when the real summed element size was
+// compared with the slab-size threshold on a dominating edge.
+func ruleL14(p *Prog, r *Report) {
+	const R = "L14"
+	n := 0
+	for _, f := range p.Funcs {
+		if p.IsTestFile(f.Pos()) {
+			continue
+		}
+		eachInstr(f, func(in ssa.Instruction) {
+			c, ok := in.(*ssa.Call)
+			if !ok || c.Call.StaticCallee() == nil || c.Call.StaticCallee().Name() != "newArrayWithElements" {
+				return
+			}
+			n++
+			sz := c.Call.Args[len(c.Call.Args)-1]
+			good := false
+			for _, b := range f.Blocks {
+				ifi, ok := b.Instrs[len(b.Instrs)-1].(*ssa.If)
+				if !ok {
+					continue
+				}
+				bo, ok := ifi.Cond.(*ssa.BinOp)
+				if !ok || (bo.Op != token.LSS && bo.Op != token.LEQ) {
+					continue
+				}
+				hasSize := sliceContains(bo.X, func(v ssa.Value) bool { return sameValue(v, sz) }, 0, map[ssa.Value]bool{})
+				th := globalLoadName(bo.Y)
+				if th == "" {
+					if cv, ok := canon(bo.Y).(*ssa.Convert); ok {
+						th = globalLoadName(cv.X)
+					}
+				}
+				if hasSize && (th == "targetThreshold" || th == "maxThreshold") && edgeDominates(b, 0, in.Block()) {
+					good = true
+				}
+			}
+			r.Decide(good, R, "fast-path-fits:"+p.Name(f), p.InstrPos(in), "the single-slab fast path is taken only when the real element size was checked against the slab size", "a root data slab is built directly from caller data without checking its real size against the slab size: an oversized slab would be created")
+		})
+	}
+	r.Floor(R, "direct-build call sites", 1, n)
+}
